@@ -27,13 +27,21 @@ SUB_ATOMS = ["(p o3)", "(q o3 o1)", "(r)"]
 M_ATOMS = ["(m o3 o1)", "(m o3 o2)", "(q o1 o2)"]
 
 
-def via_trajectory_parser(world, state):
-    """rebuild every fact of `state` the way TrajectoryParser(domain, problem) builds it"""
+def via_trajectory_parser(world, state, with_problem=True):
+    """rebuild every fact and every fluent of `state` the way TrajectoryParser builds them: given the problem (facts and
+    fluents annotated with the objects' own types) or without it (annotated with the declared parameter types)"""
     from pddl_plus_parser.lisp_parsers import TrajectoryParser
-    parser = TrajectoryParser(world.domain, world.problem)
+    parser = TrajectoryParser(world.domain, world.problem if with_problem else None)
     for key, facts in list(state.state_predicates.items()):
         state.state_predicates[key] = {
             parser.parse_grounded_predicate(lib._ast(gp.untyped_representation), world.domain.predicates[gp.name]) for gp in facts}
+    rebuilt = {}
+    for key, fl in state.state_fluents.items():
+        nf = parser.parse_grounded_numeric_fluent(lib._ast(lib.fluent_name(fl)))
+        nf.set_value(fl.value)
+        rebuilt[nf.untyped_representation] = nf
+    state.state_fluents.clear()
+    state.state_fluents.update(rebuilt)
     return state
 
 FLUENTS = ["(f o1)", "(g)", "(h o2 o2)"]
@@ -74,8 +82,8 @@ def run_pair(task):
             sa, _ = world.make_state({a: SymBool(va[a]) for a in atoms_a}, {f: SymReal(xa[f]) for f in fl_a})
             fb = list(reversed(fl_b)) if task["reverse_b"] else list(fl_b)
             sb, _ = world.make_state({a: SymBool(vb[a]) for a in order_b}, {f: SymReal(xb[f]) for f in fb})
-            if task.get("route_b") == "trajectory":
-                via_trajectory_parser(world, sb)
+            if task.get("route_b") in ("trajectory", "trajectory_without_problem"):
+                via_trajectory_parser(world, sb, with_problem=task["route_b"] == "trajectory")
             if task.get("empty_keys"):
                 # states built by the parsers and by delete effects hold (possibly empty) sets for predicates without facts
                 for s_ in (sa, sb):
@@ -155,8 +163,8 @@ def concrete_pair(task, A, B, XA, XB):
     sa, _ = world.make_state({a: A[a] for a in atoms_a}, dict(XA))
     fb = list(reversed(task["fluents_b"])) if task["reverse_b"] else list(task["fluents_b"])
     sb, _ = world.make_state({a: B[a] for a in order_b}, {f: XB[f] for f in fb})
-    if task.get("route_b") == "trajectory":
-        via_trajectory_parser(world, sb)
+    if task.get("route_b") in ("trajectory", "trajectory_without_problem"):
+        via_trajectory_parser(world, sb, with_problem=task["route_b"] == "trajectory")
     if task.get("empty_keys"):
         for s_ in (sa, sb):
             for pred in world.domain.predicates.values():
@@ -227,6 +235,12 @@ def tasks_for(tier):
         for rev in (False, True):
             tasks.append({"atoms": M_ATOMS, "fluents_a": list(fa), "fluents_b": list(fa), "reverse_b": rev, "empty_keys": not rev})
     tasks.append({"atoms": M_ATOMS, "fluents_a": [], "fluents_b": [], "reverse_b": False, "empty_keys": False, "route_b": "trajectory"})
+    # fluents over an object of a strict subtype of the declared parameter type, the second state built without a problem
+    # (declared types) / with it (own types); equality must not depend on the annotation nor on the side of ==
+    for route in ("trajectory_without_problem", "trajectory"):
+        for rev in (False, True):
+            tasks.append({"atoms": SUB_ATOMS[:2], "fluents_a": ["(f o3)", "(h o3 o1)"], "fluents_b": ["(f o3)", "(h o3 o1)"],
+                          "reverse_b": rev, "empty_keys": rev, "route_b": route})
     # the two states are built by different routes of the library (problem parser vs trajectory parser with a problem)
     for fa in (FLUENTS[:1], []):
         for rev in (False, True):
